@@ -588,6 +588,11 @@ func (info *Info) FindLookups(lang language.Tag, includeFeature map[string]bool)
 	}
 	// TODO(voss): make sure a sensible default comes first.
 	//     Maybe this could be based on the number of features supported?
+	// The first tag is the fall-back when no language system matches:
+	// use a fixed order, independent of map iteration order.
+	sort.Slice(tags, func(i, j int) bool {
+		return tags[i].String() < tags[j].String()
+	})
 
 	matcher := language.NewMatcher(tags)
 	_, index, _ := matcher.Match(lang)
